@@ -14,7 +14,7 @@
    observations = the flat list of everything the later calls returned. *)
 From Coq Require Import Strings.String Strings.Byte.
 From Coq Require Import List Arith NArith ZArith Bool Lia.
-From Verif Require Import Base.Bytes Base.Val Base.Outcome Model.Quote Model.Pools.
+From Verif Require Import Base.Bytes Base.Val Model.Pools.
 Import ListNotations.
 
 (* growth policy used when the model is run; by C20_*_ops_commute_with_abs no observation
